@@ -13,7 +13,7 @@ trap cleanup EXIT
 cd $wt
 if [ -n "$demosrc" ]; then
   mkdir -p $(dirname $demodst); cp "$demosrc" $demodst
-  echo "== demo WITHOUT patch:"; (cd $(dirname $demodst) && go test -count=1 -run . -v . 2>&1 | grep -E "^(--- |ok|FAIL|PASS)" | head -8)
+  echo "== demo WITHOUT patch:"; (cd $(dirname $demodst) && go test ${DEMO_RACE:+-race} -tags "$DEMO_TAGS" -count=1 -run "${DEMO_RUN:-.}" -v . 2>&1 | grep -E "^(--- |ok|FAIL|PASS)" | head -8)
 fi
 git apply "$patch" || { echo "PATCH-DOES-NOT-APPLY"; exit 9; }
 echo "== build/vet:"; go build ./... 2>&1 | tail -3; go vet ./... 2>&1 | grep -v "^#" | tail -3
@@ -21,7 +21,7 @@ if [ -n "$demosrc" ]; then mv $demodst /tmp/.demo_$$; fi
 echo "== existing tests WITH patch:"; go test -count=1 ./... 2>&1 | grep -v "no test files" | tail -4
 if [ -n "$demosrc" ]; then
   mv /tmp/.demo_$$ $demodst
-  echo "== demo WITH patch:"; (cd $(dirname $demodst) && go test -count=1 -run . -v . 2>&1 | grep -E "^(--- |ok|FAIL|PASS)" | head -8)
+  echo "== demo WITH patch:"; (cd $(dirname $demodst) && go test ${DEMO_RACE:+-race} -tags "$DEMO_TAGS" -count=1 -run "${DEMO_RUN:-.}" -v . 2>&1 | grep -E "^(--- |ok|FAIL|PASS)" | head -8)
   rm -f $demodst
 fi
 cd /verif
